@@ -27,6 +27,8 @@ PROPS = {
                 exhaustive_scope='every edge subset on n<=4 nodes, every failing position',
                 explanation='theorems: Topo visits a permutation of the nodes in which every edge goes forward (also for the reversed structure); try_* = prefix up to the first error'),
     'C16': dict(bundle='builder', tags=['R', 'X', 'E'], kinds=['B'], monitor=rb.mon_c16,
+                # the property is about the edge calls: compare the accepted user edges, not what build() adds
+                tagproj={'E': lambda v: ' '.join(t for t in v.split() if not t.endswith('D')) or '-'},
                 nontrivial=lambda c: 'cyc' in c.obs.get('R', '') or ' ok' in c.obs.get('R', ''),
                 rule='builder call sequences incl. repeats, reversed pairs, self edges, batches, out-of-range ids; non-trivial = at least one edge call; distinct = distinct call sequence',
                 exhaustive_scope='exh2ops: every sequence of <=2 (quick) / <=3 (thorough) edge calls from {L,C} x 9 ordered pairs on 3 nodes',
@@ -189,7 +191,10 @@ def run_monitor(spec, c):
 def project(spec, tag, v):
     """-> canonical value to compare, or None if the tag is outside this property's projection"""
     if spec.get('tags') is not None:
-        return v if tag in spec['tags'] else None
+        if tag not in spec['tags']:
+            return None
+        f = spec.get('tagproj', {}).get(tag)
+        return f(v) if f else v
     proj = spec['proj']
     base = re.sub(r'^(r[0-9]+\.|A\.|B\.)', '', tag)
     base = re.sub(r'^e[0-9]+$', 'e', base)
